@@ -194,6 +194,65 @@ def layer2(payload):
     return acc
 
 
+def sliver_cases(thorough):
+    """Deep trees (levelmax 14): a domain that is a sliver of a few dozen to a few thousand keys right after (or before) the first
+    key of a level-3 search cube, and small boxes around the cell where the curve enters that cube."""
+    L, levelmin = 14, 4  # levelmin 4: the pre-selection may use level-3 search cubes; levelmax 14: keys up to 3.5e13
+    n = 2**L
+    for h in ((0, 7, 40, 63, 300, 511) if thorough else (7, 40, 300)):
+        # the level-3 cell with Hilbert index h, then down the entry child (smallest key) to the finest level
+        cell = next(c for c in itertools.product(range(8), repeat=3) if H.hilbert3d(c[0], c[1], c[2], 3) == h)
+        cube = cell
+        for lev in range(4, L + 1):
+            kids = [tuple(2 * x + o for x, o in zip(cell, off)) for off in itertools.product((0, 1), repeat=3)]
+            cell = min(kids, key=lambda k: H.hilbert3d(k[0], k[1], k[2], lev))
+        c = h * 8 ** (L + 1 - 3)
+        top = (2 ** (L + 1)) ** 3
+        side = 2 ** (L - 3)
+        for w in (1, 3, 8, -3):
+            if w > 0:
+                # inside the cube (one search cube, whose first key is c) ...
+                box = [(max(cx * side, x - w), min((cx + 1) * side - 1, x + w)) for x, cx in zip(cell, cube)]
+            else:
+                # ... and straddling its corner (several search cubes)
+                box = [(max(0, x + w), min(n - 1, x - w)) for x in cell]
+            cutsets = []
+            for delta in (64, 512, 4096, 16384, 8**5):
+                cutsets.append([0, c, c + delta, top])
+                if c - delta > 0:
+                    cutsets.append([0, c - delta, c, top])
+            yield {"L": L, "levelmin": levelmin, "lmax": L, "ncpu": 3, "box": box, "cutsets": cutsets, "cube": h}
+            yield {"L": L, "levelmin": levelmin, "lmax": L - 2, "ncpu": 3, "box": box, "cutsets": cutsets[:4], "cube": h}
+
+
+def layer2_sliver(payload):
+    from osyris.io import hilbert as impl
+
+    acc = Acc()
+    d = scratch_dir()
+    for idx, c in my_share(sliver_cases(payload["tier"] == "thorough"), payload):
+        L, levelmin, lmax, ncpu, box = c["L"], c["levelmin"], c["lmax"], c["ncpu"], [tuple(b) for b in c["box"]]
+        infos = [write_info(os.path.join(d, f"s{idx}c{ci}"), ncpu, 3, L, levelmin, bk) for ci, bk in enumerate(c["cutsets"])]
+        req = required_keys(3, L, box, levelmin, lmax)
+        n = 2**L
+        dmax = max((i1 + 1 - i0) / n for i0, i1 in box)
+        rec = capture_call(impl, box, lmax, levelmin, L, infos[0], ncpu, 3)
+        for ci, bk in enumerate(c["cutsets"]):
+            got = pruned_list(impl, rec, infos[ci], ncpu)
+            need = {}
+            for k, cell in req.items():
+                need.setdefault(M1.owner_of_key(k, bk) + 1, cell)
+            missing = sorted(set(need) - set(got))
+            acc.case(nontrivial=len(set(got)) < ncpu, outcome="pruned" if len(set(got)) < ncpu else "all")
+            acc.count("sliver_domains_needed", int(2 in need))
+            if missing:
+                cell = need[missing[0]]
+                sig = "C04:cpu-list-drops-owner:" + ("leaf-not-smaller-than-box" if 0.5 ** cell[0] >= dmax else "leaf-smaller-than-box") + ":sliver-domain"
+                acc.violation(sig, (7000, idx, ci), {"layer": 2, "L": L, "levelmin": levelmin, "lmax": lmax, "ncpu": ncpu, "box": [list(b) for b in box], "bound_key": bk},
+                              {"returned": [int(g) for g in got], "missing_cpu": missing, "cell": [cell[0], list(cell[1])]})
+    return acc
+
+
 def capture_call(impl, box, lmax, levelmin, L, infofile, ncpu, ndim):
     """Run the real outer routine hilbert_cpu_list(meta, scaling, select, infofile) with real interval
     predicates for this box, recording the arguments with which it invokes _get_cpu_list (so that any
@@ -255,7 +314,7 @@ def replay_layer2(case):
     if not missing:
         return []
     cell = need[missing[0]]
-    return ["C04:cpu-list-drops-owner:" + ("leaf-not-smaller-than-box" if 0.5 ** cell[0] >= dmax else "leaf-smaller-than-box")]
+    return ["C04:cpu-list-drops-owner:" + ("leaf-not-smaller-than-box" if 0.5 ** cell[0] >= dmax else "leaf-smaller-than-box") + (":sliver-domain" if L >= 10 else "")]
 
 
 # ------------------------------------------------------------------ layer 3
@@ -624,7 +683,7 @@ def run(ctx):
             a1.error(sig + str(det))
         else:
             a1.violation(sig, (0, 0), {"layer": 1, "global": True}, det)
-    a2 = Acc.merged(ctx.pool.shards(MOD, "layer2", ctx.base(), nshards=ctx.pool.n * 2))
+    a2 = Acc.merged(ctx.pool.shards(MOD, "layer2", ctx.base(), nshards=ctx.pool.n * 2) + ctx.pool.shards(MOD, "layer2_sliver", ctx.base()))
     n3 = len(l3_outputs(ctx.thorough))
     a3 = Acc.merged(ctx.pool.shards(MOD, "layer3", ctx.base(), nshards=n3))
     a4 = Acc.merged(ctx.pool.shards(MOD, "cross_work", ctx.base()))
